@@ -132,7 +132,7 @@ func genRealtime(g *gen, prop string, budget int, emit func(string)) bool {
 		}
 	case "C03rt":
 		// 1..8 goroutines call Send on one tunnel at the same time; loss-free gateway
-		fixed := []string{"swrt 1 20", "swrt 2 20", "swrt 4 20", "swrt 8 10", "swrt 3 100"}
+		fixed := []string{"swrt 1 20", "swrt 2 20", "swrt 4 20", "swrt 8 10", "rcrt 25 10 100", "swrt 3 100", "rcrt 45 20 150"}
 		n := 0
 		for _, s := range fixed {
 			if n < budget {
@@ -141,9 +141,29 @@ func genRealtime(g *gen, prop string, budget int, emit func(string)) bool {
 			}
 		}
 		for ; n < budget; n++ {
+			if n%5 == 4 {
+				// the gateway disconnects (and grants another channel) while a Send is still repeating
+				g.stats["rcrt"]++
+				emit(fmt.Sprintf("rcrt %d %d %d", g.pick(5, 25, 45, 70), g.pick(10, 20), g.pick(100, 150)))
+				continue
+			}
 			s := 1 + g.r.Intn(8)
 			g.stats[fmt.Sprintf("swrt.senders%d", s)]++
 			emit(fmt.Sprintf("swrt %d %d", s, 5+g.r.Intn(60)))
+		}
+	case "C14rt":
+		// a lost indication while a Send is inside the socket write
+		n := 0
+		for _, s := range []string{"lrt 2 5", "lrt 2 3", "lrt 1 2", "lrt 4 5", "lrt 3 65535", "lrt 7 8", "lrt 9 12"} {
+			if n < budget {
+				emit(s)
+				n++
+			}
+		}
+		for ; n < budget; n++ {
+			before := 1 + g.r.Intn(10)
+			g.stats["lrt"]++
+			emit(fmt.Sprintf("lrt %d %d", before, g.pick(before+1, before+1, before+2, before+4, 65535, before, 1)))
 		}
 	case "C10rt":
 		// 1..4 goroutines call Close at the same moment, with and without pending Sends, gateway
@@ -164,6 +184,89 @@ func genRealtime(g *gen, prop string, budget int, emit func(string)) bool {
 		return false
 	}
 	return true
+}
+
+// lrt: the resend after a lost indication that arrived while a Send held the lock covers everything
+// transmitted before the first retransmission: the last min(k, retained) of those, in order
+func (m *mon) lrt(script, trace string) int {
+	var tx []string
+	k, lostSeen := 0, false
+	for _, e := range strings.Split(trace, ";") {
+		f := strings.Fields(e)
+		if len(f) == 0 {
+			continue
+		}
+		switch f[0] {
+		case "tx":
+			tx = append(tx, f[2])
+		case "lost":
+			k, lostSeen = atoi(f[2]), true
+		case "stuck":
+			m.fail("send-never-returned", "the blocked Send did not return")
+		case "busy-not-taken":
+			m.fail("busy-not-taken", "the serve loop did not take the lost indication within 2 s")
+		case "bad-script":
+			m.fail("bad-trace", trace)
+		}
+	}
+	if !lostSeen {
+		return len(tx)
+	}
+	sf := strings.Fields(script)
+	before := atoi(sf[1])
+	orig := before + 1 // telegrams 1..before+1 are transmitted once each first
+	if len(tx) < orig {
+		m.fail("bad-trace", trace)
+		return len(tx)
+	}
+	retained := tx[:orig]
+	if len(retained) > 8 {
+		retained = retained[len(retained)-8:]
+	}
+	n := k
+	if n > len(retained) {
+		n = len(retained)
+	}
+	want := retained[len(retained)-n:]
+	got := tx[orig:]
+	if strings.Join(got, ",") != strings.Join(want, ",") {
+		m.fail("resend-differs/concurrent-send", fmt.Sprintf("lost %d taken in while the Send of telegram %d was inside the socket write; transmitted before the resend: %v; expected retransmission of %v, the client sent %v", k, orig, tx[:orig], want, got))
+	}
+	return len(tx)
+}
+
+// rcrt: every repetition of a tunnelling request is the request as first transmitted - also when the
+// tunnel was reconnected onto another channel meanwhile; the Send after the reconnect uses the new
+// channel with the numbering restarted
+func (m *mon) rcrt(script, trace string) int {
+	if !strings.HasPrefix(trace, "treqs=") {
+		m.fail("bad-trace", trace)
+		return 0
+	}
+	parts := strings.Fields(trace)
+	first := map[string]string{}
+	n := 0
+	for _, tq := range strings.Split(strings.TrimPrefix(parts[0], "treqs="), ",") {
+		f := strings.Split(tq, ":")
+		if len(f) != 3 {
+			continue
+		}
+		n++
+		hdr := f[0] + ":" + f[1]
+		if was, ok := first[f[2]]; ok && was != hdr {
+			m.fail("retransmission-differs", fmt.Sprintf("telegram %s was first transmitted as channel:sequence %s and repeated as %s (requests seen: %s)", f[2], was, hdr, parts[0]))
+			break
+		} else if !ok {
+			first[f[2]] = hdr
+		}
+	}
+	if len(parts) > 1 && strings.Contains(parts[1], "stuck") {
+		m.fail("send-never-returned", "a Send had not returned 3 s after its response timeout: "+parts[1])
+	}
+	if want := "8:0"; first["3"] != "" && first["3"] != want {
+		m.fail("request-after-reconnect", fmt.Sprintf("the Send after the reconnect went out as channel:sequence %s, the new connection is channel 8 and starts at 0", first["3"]))
+	}
+	return n
 }
 
 // crt: Close called by several goroutines at once on a tunnel whose socket is usable: exactly one
